@@ -13,3 +13,6 @@ mod ops;
 
 #[cfg(all(kani, feature = "c07"))]
 mod c07;
+
+#[cfg(all(kani, feature = "c10"))]
+mod c10;
